@@ -216,7 +216,13 @@ def e2e_cases(ctx, rng, count):
                                 tzinfo=datetime.timezone.utc)
         if start == "explicit":
             age = rng.choice([rng.randrange(70, 4000), rng.randrange(4000, 10 ** 7)])
-            opts["start"] = (now - datetime.timedelta(seconds=age)).replace(microsecond=0).strftime("%Y-%m-%dT%H:%M:%SZ")
+            st_ = (now - datetime.timedelta(seconds=age)).replace(microsecond=0)
+            if rng.random() < .35:   # explicit start with a non-UTC offset ('+' URL-encoded)
+                off = rng.choice([120, -330, 345, -60, 840, -720])
+                loc = st_ + datetime.timedelta(minutes=off)
+                opts["start"] = loc.strftime("%Y-%m-%dT%H:%M:%S") + f"{'%2B' if off >= 0 else '-'}{abs(off) // 60:02d}:{abs(off) % 60:02d}"
+            else:
+                opts["start"] = st_.strftime("%Y-%m-%dT%H:%M:%SZ")
         else:
             opts["start"] = start
         q = "&".join(f"{k}={v}" for k, v in opts.items())
